@@ -50,7 +50,8 @@ THEOREMS = [
     'Px.Intercept.C11_verify_settings_wrap', 'Px.Intercept.C11_verify_settings_log', 'Px.Intercept.C11_san',
     'Px.Intercept.C11_ext_file_bytes', 'Px.Intercept.C11_optout_opaque', 'Px.Intercept.C11_chain_semantics',
     'Px.Intercept.C11_chain_asks', 'Px.Intercept.C11_order', 'Px.Intercept.C11_inner_requests',
-    'Px.Intercept.C11_D16_general', 'Px.Intercept.C11_witness_D16', 'Px.Intercept.C11_witness_D16b',
+    'Px.Intercept.C11_san_prefixes', 'Px.Intercept.C11_san_ip_literal', 'Px.Intercept.C11_san_dns_name',
+    'Px.Intercept.C11_ip_literal_examples', 'Px.Intercept.C11_ipv6_literal_verified_bare',
     'Px.Intercept.C11_property_partial',
 ]
 NO_FORK = False
@@ -814,6 +815,25 @@ def observe(case):
 # canonical lines
 # --------------------------------------------------------------------------
 
+def accepts_ip(name):
+    """the model's parameter `isIp`: does ipaddress.ip_address accept this str?"""
+    import ipaddress
+    try:
+        ipaddress.ip_address(name)
+        return True
+    except ValueError:
+        return False
+
+
+def ips_tok(names):
+    """the names among `names` that ipaddress accepts, as the driver's <ips> argument"""
+    return hlist(sorted({n.encode() for n in names if accepts_ip(n)}))
+
+
+def strip_brackets(h):
+    return h[1:-1] if h.startswith('[') and h.endswith(']') else h
+
+
 def hs(s):
     """hex of a Python str (None stays None)"""
     return 'None' if s is None else hx(s.encode())
@@ -916,8 +936,7 @@ def expected_client_wrap(case):
         return 'f'
     if mode in ('distrust', 'hangup'):
         return 'h'
-    # a verifying client rejects the leaf of an IP-literal target (D16) or one naming another host
-    return 'h' if is_ip_literal(case['host']) else 'o'
+    return 'o'
 
 
 def e2e_impl(case):
@@ -946,12 +965,13 @@ def e2e_model_lines(case):
     inter = case['intercept']
     subj = upstream_subject(case)
     cmds = openssl_outcomes(observe(case))
-    return ['tls orc %s %s %s %s %s %s %s %s %s %s %s - %s %s %s 0 %d' % (
+    return ['tls orc %s %s %s %s %s %s %s %s %s %s %s - %s %s %s 0 %d %s' % (
         hs('' if case.get('emptykey') else p.ca_key) if inter else 'None', hs(p.ca_cert) if inter else 'None',
         hs(p.signing_key) if inter else 'None', hs(CERTDIR), hs(p.ca_cert), b01(case['insecure']),
         hs(case.get('openssl') or 'openssl'), ''.join(case['plugins']) or '-', hs(case['host']), case['sit'],
         ','.join('%s=%s' % (hs(k), hs(v)) for k, v in subj) or '-',
-        '/'.join(cmds), expected_client_wrap(case), hs(FIXED_SERIAL), 1 + case.get('warm', 0))]
+        '/'.join(cmds), expected_client_wrap(case), hs(FIXED_SERIAL), 1 + case.get('warm', 0),
+        ips_tok([strip_brackets(case['host'])]))]
 
 
 # --------------------------------------------------------------------------
@@ -1150,16 +1170,16 @@ def layer_model_lines(case):
     k = case['kind']
     c = case
     if k in ('ext', 'cfg'):
-        return ['tls %s %s %s' % (k, alt_tok(c['alt']), opt_tok(c['eku']))]
+        return ['tls %s %s %s %s' % (k, ips_tok(c['alt'] or []), alt_tok(c['alt']), opt_tok(c['eku']))]
     if k == 'pub':
-        return ['tls pub %s %s %s %s %s %s %s %d %s' % (hs(c['openssl']), hs(c['pub']), hs(c['key']), hs(c['pw']),
+        return ['tls pub %s %s %s %s %s %s %s %s %d %s' % (ips_tok(c['alt'] or []), hs(c['openssl']), hs(c['pub']), hs(c['key']), hs(c['pw']),
                                                         hs(c['subject']), alt_tok(c['alt']), opt_tok(c['eku']),
                                                         c['days'], hs('TMP0'))]
     if k == 'csr':
         return ['tls csr %s %s %s %s %s' % (hs(c['openssl']), hs(c['csr']), hs(c['key']), hs(c['pw']), hs(c['crt']))]
     if k == 'sign':
-        return ['tls sign %s %s %s %s %s %s %s %s %s %d %s' % (
-            hs(c['openssl']), hs(c['csr']), hs(c['crt']), hs(c['cakey']), hs(c['capw']), hs(c['cacrt']),
+        return ['tls sign %s %s %s %s %s %s %s %s %s %s %d %s' % (
+            ips_tok(c['alt'] or []), hs(c['openssl']), hs(c['csr']), hs(c['crt']), hs(c['cakey']), hs(c['capw']), hs(c['cacrt']),
             hs(c['serial']), alt_tok(c['alt']), opt_tok(c['eku']), c['days'], hs('TMP0'))]
     if k == 'path':
         return ['tls path %s %s' % (hs(c['dir']), hs(c['host']))]
@@ -1168,10 +1188,11 @@ def layer_model_lines(case):
     if k == 'chain':
         return ['tls chain %s %s' % (b01(c['enabled']), ''.join(c['answers']) or '-')]
     if k == 'gen':
-        return ['tls gen %s %s %s %s %s %s %s %s %s %s' % (
+        return ['tls gen %s %s %s %s %s %s %s %s %s %s %s' % (
             opt_tok(c['cakey']), opt_tok(c['cacert']), opt_tok(c['signkey']), opt_tok(c['dir']), hs(c['openssl']),
             hs(c['host']), ','.join('%s=%s' % (hs(a), hs(b)) for a, b in c['subject']) or '-',
-            hlist([x.encode() for x in c['fs']]), c['cmds'] or 'o', hs(FIXED_SERIAL))]
+            hlist([x.encode() for x in c['fs']]), c['cmds'] or 'o', hs(FIXED_SERIAL),
+            ips_tok([strip_brackets(c['host'])]))]
     raise ValueError(k)
 
 
@@ -1300,8 +1321,6 @@ def oracle(case):
         # good origin (or verification explicitly disabled): interception must work end to end
         up = [e for e in o['rec'] if e['ev'] == 'wrapUp']
         if up and up[0]['out'] == 'certVerification' and not bad and not case['insecure']:
-            if case['host'].startswith('['):
-                return 'trusted-ipv6-origin-refused-bracketed-server-hostname'
             return 'trusted-origin-refused'
         if case.get('openssl') or case.get('emptykey') or \
                 any(e['ev'] == 'openssl' and e['rc'] is not True for e in o['rec']):
@@ -1310,8 +1329,6 @@ def oracle(case):
         if o['leaf'] is None:
             return 'no-leaf-generated'
         if not names_host(o['leaf'], case['host']):
-            if is_ip_literal(case['host']) and any(k == 'DNS' for k, _ in o['leaf'].get('subjectAltName', ())):
-                return 'leaf-san-dns-entry-for-ip-literal'
             return 'leaf-does-not-name-connect-host'
         if c['handshake'] != 'ok':
             return 'verifying-client-rejects-leaf:' + str(c['handshake'])[:60] + ('/' + c['error'] if c['error'] else '')
@@ -1336,17 +1353,6 @@ def oracle(case):
     return None
 
 
-def classify(case, sig):
-    if case['kind'] != 'e2e' or not case['intercept']:
-        return None
-    if sig == 'leaf-san-dns-entry-for-ip-literal' and is_ip_literal(case['host']):
-        return 'D16'
-    if sig == 'trusted-ipv6-origin-refused-bracketed-server-hostname' and case['host'].startswith('[') \
-            and not case['insecure']:
-        return 'D16b'
-    return None
-
-
 def e2e(host='example.org', sit='trusted', insecure=0, plugins=(), intercept=1, warm=0, req=None, resp=10, cuts=(),
         **extra):
     bare = host[1:-1] if host.startswith('[') else host
@@ -1356,12 +1362,6 @@ def e2e(host='example.org', sit='trusted', insecure=0, plugins=(), intercept=1, 
     c.update(extra)
     return c
 
-
-def finding_witnesses():
-    return {
-        'D16': e2e(host='127.0.0.1'),
-        'D16b': e2e(host='[::1]'),
-    }
 
 
 # --------------------------------------------------------------------------
@@ -1478,7 +1478,8 @@ def _rand_cuts(rng, n):
 
 def _layer_cases(rng, big):
     strs = ['', 'a', 'h.example', '/x', '/x/', 'a b', 'é', 'k=v', '/tmp/px dir/f.pem']
-    alts = [None, [], [''], ['a'], ['a', 'b'], ['127.0.0.1'], ['[::1]'], ['a', '', 'c,d'], ['é.example']]
+    alts = [None, [], [''], ['a'], ['a', 'b'], ['127.0.0.1'], ['[::1]'], ['::1'], ['a', '', 'c,d'], ['é.example'],
+            ['2001:db8::1', 'h.example', '10.0.0.1'], ['1.2.3'], ['1.2.3.4.5'], ['::ffff:1.2.3.4'], ['fe80::1%eth0']]
     ekus = [None, '', 'serverAuth', 'serverAuth,clientAuth']
     for alt in alts:
         for eku in ekus:
@@ -1500,7 +1501,8 @@ def _layer_cases(rng, big):
                      eku=rng.choice(ekus), days=rng.choice([0, 1, 365, 730]))
         yield c
     dirs = ['', '/', '/d', '/d/', 'rel', 'rel/', '/a/b', '/a//', '//']
-    hosts = ['h', 'example.org', '127.0.0.1', '[::1]', '/abs', '../up', 'a/b', '', '.', 'é.example', 'h.pem']
+    hosts = ['h', 'example.org', '127.0.0.1', '[::1]', '/abs', '../up', 'a/b', '', '.', 'é.example', 'h.pem',
+             '[2001:db8::1]', '::1', '[', '[]', '[h.example]', '[127.0.0.1]', '[[::1]]']
     for d in dirs:
         for h in hosts:
             yield {'kind': 'path', 'dir': d, 'host': h}
@@ -1523,7 +1525,7 @@ def _layer_cases(rng, big):
              'organizationalUnitName', 'emailAddress', 'serialNumber']
     for _ in range(3000 if big else 300):
         d = rng.choice(['/d', '/d/', '', 'rel', '/tmp/x y'])
-        h = rng.choice(hosts[:6] + [_rand_name(rng), _rand_str(rng, 'ab./é') or 'h'])
+        h = rng.choice(hosts[:6] + hosts[11:] + [_rand_name(rng), _rand_str(rng, 'ab./é[]:1') or 'h'])
         if not h:
             h = 'h'
         from proxy.http.proxy.server import HttpProxyPlugin as _P    # path function of the code, to build cache states
